@@ -7,8 +7,11 @@ use std::cell::UnsafeCell;
 use std::io;
 use std::time::Duration;
 
-/// Maximum number of registered fds per `Poll`.
+/// Maximum number of registered fds per `Poll` (2 with `--cfg ocv_small`).
+#[cfg(not(ocv_small))]
 pub const CAP: usize = 4;
+#[cfg(ocv_small)]
+pub const CAP: usize = 2;
 
 #[derive(Debug, Copy, Clone, PartialEq, Eq, PartialOrd, Ord, Hash)]
 pub struct Token(pub usize);
@@ -277,7 +280,7 @@ impl Registry {
 /// Model-only: hook called at the start of every `Poll::poll` with the timeout it was given. The harness uses it to let
 /// (virtual) time pass and to inject a failure: a non-zero return value is the errno `poll` fails with (e.g. EINTR - mio
 /// does not retry an interrupted epoll_wait).
-pub static mut VERIF_POLL_HOOK: Option<fn(Option<Duration>) -> i32> = None;
+pub static mut VERIF_POLL_HOOK: (Option<fn(Option<Duration>) -> i32>, u64) = (None, 0x5a5a_0010); // (tagged: see the note in the corosensei model)
 
 #[derive(Debug)]
 pub struct Poll {
@@ -297,7 +300,7 @@ impl Poll {
     /// readiness marks are consumed. Never blocks (time is not modelled here).
     pub fn poll(&mut self, events: &mut Events, timeout: Option<Duration>) -> io::Result<()> {
         events.clear();
-        if let Some(h) = unsafe { VERIF_POLL_HOOK } {
+        if let Some(h) = unsafe { VERIF_POLL_HOOK.0 } {
             let e = h(timeout);
             if e != 0 {
                 return Err(io::Error::from_raw_os_error(e));
